@@ -10,9 +10,9 @@ import (
 )
 
 func init() {
-	register(&Rule{Name: "PLAN-CLASSIFY", Floor: 3, Run: rulePlanClassify,
+	register(&Rule{Name: "PLAN-CLASSIFY", Floor: 1, Run: rulePlanClassify,
 		Doc: "a planned change is a replacement exactly when the entity's stored artifact has a certificate (that is what the CLI asks consent for), otherwise a creation; subject validation and merging run for every entity of the work list, before the regeneration decision"})
-	register(&Rule{Name: "GUARD-ROOT", Floor: 3, Run: ruleGuardRoot,
+	register(&Rule{Name: "GUARD-ROOT", Floor: 1, Run: ruleGuardRoot,
 		Doc: "an imported entity is a root exactly when its issuer is empty, otherwise it is a subscriber of its issuer; so self-loops and cycles are not reachable from the roots and fail the consistency check"})
 	register(&Rule{Name: "LINT-STALE", Floor: 0, Run: ruleLintStale, Fixture: "fixture.staleCarry",
 		Doc: "a per-element value built inside a loop does not take a conditionally assigned variable that lives across iterations (a value left over from an earlier element)"})
@@ -28,22 +28,22 @@ func rulePlanClassify(c *Ctx, r *Rep) {
 		r.Undecided("anchor:decision-function", "", "not found")
 		return
 	}
-	var plan *ssa.Function
-	var decCall *ssa.Call
-	for _, fn := range c.Funcs {
-		for _, ci := range callsIn(fn) {
-			if ci.Common().StaticCallee() == dec && fn != dec {
-				plan, decCall = fn, ci.(*ssa.Call)
-			}
-		}
-	}
+	plan, decCall, decSite, _ := c.plannerOf(dec)
 	if plan == nil {
-		r.Undecided("anchor:planner", "", "the decision function has no caller")
+		r.Undecided("anchor:planner", "", "the decision function is not called from a work-list loop")
 		return
 	}
 	pv := c.newProv()
 	fk := c.FuncKey(plan)
-	entity := strings.Join(pv.Origins(decCall.Call.Args[2]), ",")
+	entityV := decCall.Call.Args[2]
+	if prm, ok := entityV.(*ssa.Parameter); ok && decSite != ssa.CallInstruction(decCall) {
+		for i, q := range decCall.Parent().Params {
+			if q == prm && i < len(decSite.Common().Args) {
+				entityV = decSite.Common().Args[i]
+			}
+		}
+	}
+	entity := strings.Join(pv.Origins(entityV), ",")
 	ct := c.NamedType("generator/db", "ChangeType")
 	n := 0
 	// the kind is chosen in the planner or in a helper it calls (followed one call deep, parameters bound to the arguments)
@@ -69,41 +69,88 @@ func rulePlanClassify(c *Ctx, r *Rep) {
 					if !ok || ct == nil || !types.Identical(fieldOfAddr(fa).Type(), ct) {
 						continue
 					}
-					k, ok := st.Val.(*ssa.Const)
-					if !ok {
+					// the kind is a constant chosen by a test here, or the answer of a helper that chooses it
+					type choice struct {
+						k   *ssa.Const
+						blk *ssa.BasicBlock
+						pop bool
+					}
+					var choices []choice
+					if k, ok := st.Val.(*ssa.Const); ok {
+						choices = append(choices, choice{k, b, false})
+					} else if call, ok := st.Val.(*ssa.Call); ok && call.Call.StaticCallee() != nil && c.InModule(call.Call.StaticCallee()) && call.Call.StaticCallee().Blocks != nil && !hasLoop(call.Call.StaticCallee()) {
+						g := call.Call.StaticCallee()
+						hb := map[*ssa.Parameter][]string{}
+						for i, prm := range g.Params {
+							if i < len(call.Call.Args) {
+								hb[prm] = uniq(pv.origins(call.Call.Args[i], 0))
+							}
+						}
+						pv.binds = append(pv.binds, hb)
+						okAll := true
+						for _, ret := range returnsOf(g) {
+							for _, pe := range phiEdges(retResults(ret)[0], ret.Block()) {
+								k, isK := pe.Val.(*ssa.Const)
+								if !isK {
+									okAll = false
+									continue
+								}
+								from := pe.From
+								if from == nil {
+									from = ret.Block()
+								}
+								choices = append(choices, choice{k, from, false})
+							}
+						}
+						if !okAll {
+							choices = nil
+						}
+						if len(choices) > 0 {
+							choices[len(choices)-1].pop = true
+						} else {
+							pv.binds = pv.binds[:len(pv.binds)-1]
+						}
+					}
+					if len(choices) == 0 {
 						r.Bad("change-kind-constant|"+fk, c.Pos(st.Pos()), "the kind of change is a constant chosen by a test", st.Val.String())
 						continue
 					}
-					n++
-					name := c.constName(ct, k.Value)
-					// the guard: <artifact of the entity>.Certificate != nil
-					var got []string
-					for _, g := range guardsOf(b) {
-						bin, isBin := g.Cond.(*ssa.BinOp)
-						if !isBin {
-							continue
+					for _, ch := range choices {
+						k, b := ch.k, ch.blk
+						n++
+						name := c.constName(ct, k.Value)
+						// the guard: <artifact of the entity>.Certificate != nil
+						var got []string
+						for _, g := range guardsOf(b) {
+							bin, isBin := g.Cond.(*ssa.BinOp)
+							if !isBin {
+								continue
+							}
+							kk, isK := bin.Y.(*ssa.Const)
+							if !isK || kk.Value != nil {
+								continue
+							}
+							o := strings.Join(uniq(pv.origins(bin.X, 0)), ",")
+							if !strings.Contains(o, "GetBuildArtifact(") || !strings.Contains(o, ")#0.") {
+								continue // e.g. the error of the lookup
+							}
+							present := (bin.Op == token.NEQ) == g.Truth
+							part := o[strings.LastIndex(o, ".")+1:]
+							okEntity := strings.Contains(o, "|"+entity+")#0.")
+							got = append(got, sprintf("%s present=%v ownArtifact=%v", part, present, okEntity))
 						}
-						kk, isK := bin.Y.(*ssa.Const)
-						if !isK || kk.Value != nil {
-							continue
+						sort.Strings(got)
+						switch {
+						case strings.HasSuffix(name, "ChangeReplace"):
+							r.Check(len(got) == 1 && got[0] == "Certificate present=true ownArtifact=true", "replace-iff-certificate|"+fk, c.Pos(st.Pos()), "ChangeReplace exactly when the entity's stored artifact has a certificate", strings.Join(got, "; "))
+						case strings.HasSuffix(name, "ChangeCreate"):
+							r.Check(len(got) == 1 && got[0] == "Certificate present=false ownArtifact=true", "create-iff-no-certificate|"+fk, c.Pos(st.Pos()), "ChangeCreate exactly when it has none", strings.Join(got, "; "))
+						default:
+							r.Bad("change-kind|"+fk, c.Pos(st.Pos()), "create or replace", name)
 						}
-						o := strings.Join(uniq(pv.origins(bin.X, 0)), ",")
-						if !strings.Contains(o, "GetBuildArtifact(") || !strings.Contains(o, ")#0.") {
-							continue // e.g. the error of the lookup
+						if ch.pop {
+							pv.binds = pv.binds[:len(pv.binds)-1]
 						}
-						present := (bin.Op == token.NEQ) == g.Truth
-						part := o[strings.LastIndex(o, ".")+1:]
-						okEntity := strings.Contains(o, "|"+entity+")#0.")
-						got = append(got, sprintf("%s present=%v ownArtifact=%v", part, present, okEntity))
-					}
-					sort.Strings(got)
-					switch {
-					case strings.HasSuffix(name, "ChangeReplace"):
-						r.Check(len(got) == 1 && got[0] == "Certificate present=true ownArtifact=true", "replace-iff-certificate|"+fk, c.Pos(st.Pos()), "ChangeReplace exactly when the entity's stored artifact has a certificate", strings.Join(got, "; "))
-					case strings.HasSuffix(name, "ChangeCreate"):
-						r.Check(len(got) == 1 && got[0] == "Certificate present=false ownArtifact=true", "create-iff-no-certificate|"+fk, c.Pos(st.Pos()), "ChangeCreate exactly when it has none", strings.Join(got, "; "))
-					default:
-						r.Bad("change-kind|"+fk, c.Pos(st.Pos()), "create or replace", name)
 					}
 				}
 			}
@@ -134,7 +181,7 @@ func rulePlanClassify(c *Ctx, r *Rep) {
 			if f == nil || !c.InModule(f) {
 				continue
 			}
-			if _, reaches := c.Graph().Reach(f)[validate]; reaches && instrDominates(ci, decCall) {
+			if _, reaches := c.Graph().Reach(f)[validate]; reaches && instrDominates(ci, decSite) {
 				ok = true
 			}
 		}
@@ -534,7 +581,7 @@ func declaredOutsideLoopOf(al *ssa.Alloc, b *ssa.BasicBlock) bool {
 }
 
 func init() {
-	register(&Rule{Name: "TBS-WRITERS", Floor: 15, Run: ruleTbsWriters,
+	register(&Rule{Name: "TBS-WRITERS", Floor: 7, Run: ruleTbsWriters,
 		Doc: "who may write which field of the to-be-signed certificate: the context constructor (version, fresh serial, validity, subject, placeholder issuer), the body builder (configured serial, unique ids, request key, the four TBS manipulations), the key setters (SubjectPublicKeyInfo), SetIssuer and the signing function (inner algorithm, issuer, extensions); any other store into a TbsCertificate field is a violation"})
 }
 
@@ -585,6 +632,9 @@ func ruleTbsWriters(c *Ctx, r *Rep) {
 	for _, fn := range c.Funcs {
 		fk := c.FuncKey(fn)
 		for _, fs := range storesIntoType(c, fn, "cert.TbsCertificate") {
+			if fs.whole {
+				continue // listed field by field
+			}
 			// asn1.Unmarshal(&…Parameters) style fills are stores through calls, not seen here
 			ok, why := allowed(fn, fs.field, map[*ssa.Function]bool{})
 			r.Check(ok, "writer|"+fk+"|"+fs.field, c.Pos(fs.st.Pos()), "a confirmed writer of this to-be-signed field, or a helper called only by such writers", why)
